@@ -207,6 +207,8 @@ def run(cx: Cx):
         else:
             cx.ok('R-ENTROPY', f"{f.name} reads no module-level mutable state", where=cx.where(f), function=f.qualname)
     _premises(cx)
+    from .common import check_no_stateful_memo
+    check_no_stateful_memo(cx)
 
 
 def _is_set_expr(cx, f, e) -> bool:
@@ -231,6 +233,7 @@ def _is_set_expr(cx, f, e) -> bool:
 
 def _premises(cx):
     from .common import include_premises
-    keep = ('fresh-model-per-run', 'one-score-of-own-model-per-repetition', 'no-module-level-state')
+    keep = ('fresh-model-per-run', 'one-score-of-own-model-per-repetition', 'no-module-level-state', 'work-list-is-product-times-repetitions',
+            'evaluates-the-built-product-list')
     include_premises(cx, ['C15', 'C16'], 'a run is reproducible from its seed only if every run and repetition builds its own model',
                      only=lambda o: any(k in o.key for k in keep))
